@@ -1,7 +1,8 @@
 """
 C19 - dictionary findall returns complete, resolvable, history-independent results.
 
-Lean: Model/FindAll.lean, Proofs/FindAll.lean, Proofs/FindAllDesc.lean, Proofs/FindAllList.lean (list roots), Props/C19.lean
+Lean: Model/FindAll.lean, Proofs/FindAll.lean, Proofs/FindAllDesc.lean, Proofs/FindAllList.lean (list roots),
+  Proofs/FindAllTail.lean ('//*/name/sub'), Props/C19.lean
 B streams: fa.tok (normalisation), fa.find (findall end to end + state of the default objects after the call),
   fa.findm (findall(xpath, raise_exception) in both modes through the public entry point), fa.raw (_findall with raise_exception=False / explicit token lists), fa.first (findfirst), fa.hist (sequences of
   searches through the shared default objects), fa.pure (result + defaults + the container as it is AFTER the call against
@@ -82,8 +83,12 @@ MANIFEST = dict(
          "'//' = the root itself) return that value and leave the tree unchanged; C19_resolves_list - in particular the key of "
          "an exact-path result. C19_text_key_fixed (witness of the former finding C19-c), C19_scalar_in_list_cex, "
          "C19_scalar_in_list_root_cex (a scalar in a list under a wildcard/name raises IndexError: outside the quantifier). "
-         "NOT proved, checked on the implementation only: completeness of the descendant wildcard with a longer tail "
-         "(stated as C19_descendant_tail_stmt; '//*/name/sub': evaluator descendant against a DFS oracle + streams; soundness of every result is C19_keys_spell), "
+         "C19_descendant_tail (+_positions, _iff; Proofs/FindAllTail.lean): on a dict root with KeysOkV, ContOkV and no entry called "
+         "name being a list, '//*/name/sub' returns exactly, in document order, the entries sub of the dictionaries called name at "
+         "any depth under their canonical xpaths - a name that is a final element is a miss of that branch and the search goes "
+         "on (this is where fix C19-d enters the proof: fat_self_check). "
+         "NOT proved, checked on the implementation only: two-step tails with lists under name or on list roots (evaluator "
+         "descendant against a DFS oracle that fans out over lists + streams; soundness of every result is C19_keys_spell), "
          "object identity (`is`), and that the real code does not write "
          "into the tree (the model is a pure function that does not thread the tree). The model is compared with the real "
          "findall/_findall/findfirst on results in order, exception class and the contents of _findall.__defaults__ after "
